@@ -327,6 +327,14 @@ def judge_select(c, rec):
 
     zoo.decoys("billing" if prof == "billing" else "daily")  # unrelated models with other calendar maps exist in every real process
     cands = list(m.combinations)
+    # the candidates the fit worked with are all the candidates its settings and data allow (asked for again, independently of the fit)
+    try:
+        allowed = list(m._combinations())
+    except Exception:
+        allowed = None
+    if allowed is not None and set(allowed) != set(cands):
+        rec.violation("select/candidates-not-all-considered", c, "the fit considered %d candidates %s, settings and data allow %d (e.g. %s)" % (
+            len(cands), cands[:3], len(allowed), sorted(set(allowed) - set(cands))[:3]))
     ss = m.settings.split_selection
     flags = {f: getattr(ss, f) for f in FLAGS}
     s_dump = m.settings.model_dump()
@@ -381,6 +389,20 @@ def judge_select(c, rec):
             if len(want[i]) != 1 or got[i] != want[i][0]:
                 rec.violation(key + "/wrong-submodel", c, "%s predicted by %r, its cell belongs to %r" % (out.index[i].date(), got[i], want[i]))
                 break
+        # the stored document pairs every sub-model key with its own coefficients: read back, it predicts the baseline identically
+        try:
+            m2 = type(m).from_json(m.to_json())
+            out2 = m2.predict(data, ignore_disqualification=True)
+            a_, b_ = out["predicted"].values.astype(float), out2["predicted"].values.astype(float)
+            if len(a_) != len(b_) or not np.array_equal(a_, b_, equal_nan=True) or out["model_split"].tolist() != out2["model_split"].tolist():
+                i = int(np.nonzero(~((a_ == b_) | (np.isnan(a_) & np.isnan(b_))))[0][0]) if len(a_) == len(b_) and not np.array_equal(a_, b_, equal_nan=True) else 0
+                rec.violation(key + "/stored-split-predicts-differently", c, "%s: fitted model %r (%s), stored and reloaded %r (%s)" % (
+                    out.index[i].date(), float(a_[i]), out["model_split"].iloc[i], float(b_[i]) if len(b_) > i else None, out2["model_split"].iloc[i] if len(out2) > i else None))
+        except Exception as e:
+            from ..core import exc_bucket, short
+            if exc_bucket(e) is None:
+                raise
+            rec.violation(key + "/stored-split-raises/" + exc_bucket(e), c, short(e, 160))
         should = np.isfinite(out["temperature"].values.astype(float)) & (np.isfinite(out["observed"].values.astype(float)) if "observed" in out else True)
         if (should & ~fin).any():
             i = int(np.nonzero(should & ~fin)[0][0])
